@@ -374,7 +374,14 @@ def handle (cmd : String) (args impl : List String) : Option (String × String) 
     let evs := streams.flatten
     -- the chain: scripted verdict actions `v` around the real join `j`; position k discards an
     -- event iff character k of its "v" field is 'D'
-    let jpos := (chain.findIdx? (· == 'j')).getD 0
+    let jpos := (chain.findIdx? (fun c => c == 'j' || c == 'J')).getD 0
+    -- `J`: the join has the match condition k = "y". An IDLE join is skipped by an event that
+    -- fails it (the event goes on unchanged, no run starts); a BUSY join gets every event of its
+    -- stream and classifies it by its patterns alone (processor.doActions)
+    let cond := chain.contains 'J'
+    let condOK (root : JTree) : Bool := !cond || (match JTree.dig root [str "k"] with
+      | some n => n.isStr && asString n == str "y"
+      | none => false)
     let verdict (root : JTree) : Bytes := match JTree.dig root [str "v"] with
       | some n => asString n
       | none => []
@@ -400,7 +407,32 @@ def handle (cmd : String) (args impl : List String) : Option (String × String) 
     -- what must arrive at the output per stream, VALUE and ORDER: the run-grouping spec of the
     -- calls the join saw for that stream (time-outs where they were observed), minus the events
     -- a later verdict action discards (a joined event carries the verdict of its start line)
-    let specOuts := perStream.map (fun items => ((SpecC15.spec cfg items).map (·.root)).filter downPass)
+    -- per stream: the events no earlier action discards, in read order, with the observed
+    -- time-outs put after the event they followed; an event that fails the condition while no
+    -- run is open is neutralised (neither start nor continuation: it passes, nothing else happens)
+    let tmoAfter (t : Nat) : List (Option Nat) :=
+      ((calls.filter (fun c => SpecC15.tagOf c.inp == t)).foldl (fun (acc : Option Nat × List (Option Nat)) c =>
+        match c.id with
+        | some id => (some id, acc.2)
+        | none => (acc.1, acc.2 ++ [acc.1])) (none, [])).2
+    let simulate (t : Nat) (evs : List (Nat × Ev)) : List In × List Nat :=
+      let tmos := tmoAfter t
+      let lead := (tmos.filter (·.isNone)).map (fun _ => In.timeout t)
+      let r := (evs.filter (fun e => upPass e.2.root)).foldl
+        (fun (acc : List In × List Nat × Bool) (e : Nat × Ev) =>
+          let (items, seen, busy) := acc
+          let vis := condOK e.2.root || busy
+          let item : In := if vis then .ev e.2 else .ev { e.2 with startOK := false, contOK := cfg.negate }
+          let busy1 := SpecC15.busyAfter cfg busy item
+          let ts := (tmos.filter (· == some e.1)).map (fun _ => In.timeout t)
+          (items ++ [item] ++ ts, if vis then seen ++ [e.1] else seen, if ts.isEmpty then busy1 else false))
+        (lead, [], false)
+      (r.1, r.2.1)
+    let sims := (tags.zip streams).map (fun (t, evs) => simulate t evs)
+    -- what must arrive at the output per stream, VALUE and ORDER: the run-grouping spec of that
+    -- sequence minus the events a later verdict action discards (a joined event carries the
+    -- verdict of its start line)
+    let specOuts := sims.map (fun sim => ((SpecC15.spec cfg sim.1).map (·.root)).filter downPass)
     let m := if ok then
         unwords ([toString calls.length] ++ toks ++ [toString ns] ++
           specOuts.map (fun o => unwords (toString o.length :: o.map JTree.enc)) ++ [fin])
@@ -409,14 +441,15 @@ def handle (cmd : String) (args impl : List String) : Option (String × String) 
     let views := (instances calls).map (fun i => (calls.filter (·.inst == i)).map (·.inp))
     let hyps := views.all (fun v => SpecC15.coherent cfg none v && SpecC15.timely cfg false v)
     -- the join sees, per stream and in read order, exactly the events no earlier action discards
-    let order := (tags.zip streams).all (fun (t, evs) =>
-      streamIds calls t == (evs.filter (fun e => upPass e.2.root)).map (·.1))
+    -- and that satisfy its condition or arrive while it is busy
+    let order := (tags.zip sims).all (fun (t, sim) => streamIds calls t == sim.2)
     let outsOK := nso == ns && (outs.zip specOuts).all (fun (a, b) => treesEq a b)
-    let p := if !hyps then "fail:hypothesis" else if !order then "fail:order"
-             else if fin == "panic" then "fail:panic"
+    let p := if fin == "panic" then "fail:panic"
              else if fin == "changed" then "fail:changed"
+             else if !outsOK then "fail:output"
+             else if !hyps then "fail:hypothesis" else if !order then "fail:order"
              else if fin != "ok" then "fail:stuck"
-             else if !outsOK then "fail:output" else "ok"
+             else "ok"
     pure (m, p)
   | _ => none
 
